@@ -4,8 +4,8 @@ from harness import cxx_run as X
 
 class C10(ProgProp):
     id = 'C10'
-    theorems = ['C10.checkPort_none_iff', 'C10.checkPort_error', 'C10.detect_unbound_boundary', 'C10.detect_unbound_component', 'C10.locked_after_success', 'C10.all_bound_ok']
-    proof_modules = ['DznProofs.C10']
+    theorems = ['C10.checkPort_none_iff', 'C10.checkPort_error', 'C10.detect_unbound_boundary', 'C10.detect_unbound_component', 'C10.detect_unbound_client', 'C10.locked_after_success', 'C10.all_bound_ok', 'C10.createFinalConstructFn_stmts', 'C10.stmtStep_cb', 'C10.stmtStep_fc', 'C10.build_final_stmts', 'C10.build_detects_unbound_boundary', 'C10.build_detects_unbound_component', 'C10.build_detects_unbound_client']
+    proof_modules = ['DznProofs.C10', 'DznProofs.C10Gen']
     scripts_per_program = 1
     level_rule = ('compiled programs; scenarios: everything bound (final succeeds, parent recorded) and, for EVERY '
                   'event of every exposed port in its environment-duty direction, every registered client and every '
